@@ -29,7 +29,13 @@ type TableSpec struct {
 	HasHeader bool       `json:"has_header"`
 	Header    []ItemSpec `json:"header,omitempty"`
 	HeaderAt  int        `json:"header_at"` // AddHeaders is issued before row op HeaderAt (len(Rows) = after all rows)
-	Rows      []RowSpec  `json:"rows"`
+	// EarlierHeader, if not nil, is a header row set first (at the very beginning) and REPLACED by Header later:
+	// AddHeaders may be called again.  If it was wider than everything that follows, the table may keep counting its
+	// columns (C02 accepts both readings), so the column count of such a table is what the table itself says, within
+	// those bounds (see NCols).
+	EarlierHeader []ItemSpec `json:"earlier_header_replaced_later,omitempty"`
+	colsSeen      int
+	Rows          []RowSpec `json:"rows"`
 	// Props are properties set on the finished table which mean something to ANOTHER renderer than the one under
 	// test, or to nobody (application keys): the renderer under test must not be influenced by them.
 	Props []PropSpec `json:"other_properties,omitempty"`
@@ -261,6 +267,21 @@ func (s *TableSpec) BuildStagedN(t tabular.Table, ats []int, mid func()) *Built 
 	}
 	b := &Built{T: t, Cells: make([][]Made, len(s.Rows)), spec: s}
 	s.registerBystanders(t)
+	s.colsSeen = 0
+	if s.EarlierHeader != nil {
+		items := make([]interface{}, len(s.EarlierHeader))
+		for i := range s.EarlierHeader {
+			items[i] = s.EarlierHeader[i].Make().Item
+		}
+		t.AddHeaders(items...)
+		defer func() {
+			// the table's own count decides between "columns are never lost" and "the count follows the live widths"
+			live := s.liveCols()
+			if n := t.NColumns(); n > live && n <= len(s.EarlierHeader) {
+				s.colsSeen = n
+			}
+		}()
+	}
 	hdr := func() {
 		if !s.HasHeader {
 			return
@@ -344,6 +365,14 @@ func (s *TableSpec) BuildStagedN(t tabular.Table, ats []int, mid func()) *Built 
 // NCols is the column count the statements define: the largest number of
 // cells in the header or in any row.
 func (s *TableSpec) NCols() int {
+	if s.colsSeen > 0 {
+		return s.colsSeen
+	}
+	return s.liveCols()
+}
+
+// liveCols is the largest number of cells in the final header or in any row.
+func (s *TableSpec) liveCols() int {
 	n := 0
 	if s.HasHeader && len(s.Header) > n {
 		n = len(s.Header)
@@ -519,6 +548,18 @@ func (r *R) Table(o TableOpts) TableSpec {
 			s.HeaderAt = r.Range(0, len(s.Rows))
 		default:
 			s.HeaderAt = 0
+		}
+	}
+	if s.HasHeader && !o.NoScale && r.Chance(1, 10) {
+		// the header row is set twice: an earlier one (shorter, equal or wider than what follows) is replaced
+		k := r.Range(0, ncols+2)
+		s.EarlierHeader = make([]ItemSpec, k)
+		for j := range s.EarlierHeader {
+			if o.HeaderItem != nil {
+				s.EarlierHeader[j] = o.HeaderItem(r, j)
+			} else {
+				s.EarlierHeader[j] = o.Item(r)
+			}
 		}
 	}
 	if o.MinCols > 0 && s.NCols() < o.MinCols {
